@@ -12,7 +12,7 @@ from ..model import qual
 from ..symx import Expander, ref_eval, TupleV
 from ..anf import R
 from .. import anf
-from .common import formula_ob, struct_ob, guard, last_return, rel, U, purity_obligations
+from .common import refresh_obligation, formula_ob, struct_ob, guard, last_return, rel, U, purity_obligations
 from ..report import AnalysisError
 
 REL = "inference/likelihoods.py"
@@ -115,8 +115,21 @@ def run(prog, tier):
         def expand(fn_):
             ex_ = make_expander(prog, ci)
             ex_.opaque_self_attrs = {"model", "model_jacobian"}
+
+            def refresh_arm(node, env_):
+                # a memoising branch (its body stores attributes of self) is followed on its refreshing arm; that the stale
+                # arm is only taken for the same argument is the business of the cache-key obligation below
+                stores = any(isinstance(t, ast.Attribute) and isinstance(t.ctx, ast.Store) and U(t.value) == "self"
+                             for st_ in node.body for t in ast.walk(st_))
+                return "body" if stores else "unsupported"
+            ex_.on_if = refresh_arm
             return guard(lambda: ex_.run(fn_.body, {fn_.args.args[1].arg: theta}))
 
+        for m_ in ("__call__", "gradient"):
+            o_ = refresh_obligation(prog, "cache-key", ci.name, m_)
+            if not o_.ok or o_.slots.get("conditional"):
+                o_.construct += f"[{ci.name}]"
+                obs.append(o_)
         v_call = expand(call)
         ex = make_expander(prog, ci)
         F_model = anf.fn_("self.model", theta)
